@@ -34,6 +34,10 @@ impl Mix {
 }
 
 pub fn one_step(eng: &mut Eng, rng: &mut Rng, p: &Pools, mix: &Mix) {
+    if eng.jump_at == Some(eng.steps) {
+        eng.jump_at = None;
+        eng.jump_map();
+    }
     let w = [mix.store_new, mix.resubmit, mix.del_own, mix.del_foreign, mix.del_mixed, mix.remove, mix.vanish, mix.reopen, mix.rebuild, mix.table];
     match rng.weighted(&w) {
         0 => {
@@ -168,6 +172,9 @@ pub fn c04(args: &Args) -> Report {
         flags.reread_offsets = true;
         let steps = if small { 25 } else if !debug && i % 3 == 0 { 170 } else { 60 + rng.usize_below(120) };
         let mut eng = Eng::new(&mut rep, "C04", "c04", args.seed(), i, flags, 0);
+        if small {
+            eng.jump_at = None;
+        }
         for s in 0..steps {
             if eng.aborted {
                 break;
@@ -196,6 +203,9 @@ pub fn c04(args: &Args) -> Report {
         rep.require("file_growth_events", "no file growth observed");
         rep.require("reopens", "no reopen");
         rep.require("offset_rereads", "no offset re-read");
+        if !small {
+            rep.require("histories_continued_above_a_large_offset", "no history continued above a large offset");
+        }
     }
     rep
 }
@@ -984,6 +994,9 @@ pub fn c17(args: &Args) -> Report {
         let mut flags = base_flags();
         flags.derived_filters = true;
         let mut eng = Eng::new(&mut rep, "C17", "c17", args.seed(), i, flags, 0);
+        if small {
+            eng.jump_at = None;
+        }
         let steps = if small { 20 } else { 30 + rng.usize_below(50) };
         for _ in 0..steps {
             if eng.aborted {
